@@ -176,24 +176,30 @@ func (ex *Exec) step(st *State, in ssa.Instruction) {
 			// closed world: the closure owns exactly the cells of its captured variables
 			st.declOwns()
 			ds := []string{"false"}
-			for _, b := range t.Bindings {
-				ds = append(ds, fmt.Sprintf("(= o %s)", ex.val(st, b).S))
-			}
-			// objects the closure's own contract names in its assigns clause (maps), as they are now
-			if fc := ex.prog.Contracts[keyOfFunction(fn)]; fc != nil {
+			fc := ex.prog.Contracts[keyOfFunction(fn)]
+			if fc == nil {
+				for _, b := range t.Bindings {
+					ds = append(ds, fmt.Sprintf("(= o %s)", ex.val(st, b).S))
+				}
+			} else {
+				// a closure under contract owns the captured variables (and maps) its assigns clause names: the others
+				// it can only read (a write to one fails the closure's own frame obligation)
 				base := &Env{st: st, cur: st.heap, old: st.heap, ghost: st.ghost, ghost0: st.ghost, allocLo: st.alloc0}
 				fe := ex.closureEnv(st, fc, t.Bindings, base)
+				capCell := map[string]bool{}
+				for _, b := range t.Bindings {
+					capCell[ex.val(st, b).S] = true
+				}
+				seen := map[string]bool{}
 				for _, cl := range fc.Assigns {
-					for _, item := range splitList(cl.Text) {
-						if !strings.HasPrefix(strings.TrimSpace(item), "mapcells(") {
+					for _, ls := range fe.evalAssignsClause(cl) {
+						if ls.Region || ls.Ghost || ls.Owner != nil || seen[ls.Obj.S] {
 							continue
 						}
-						for _, ls := range fe.evalAssignsClause(cl) {
-							if strings.HasPrefix(ls.Fam, "MD.") && !ls.Region && ls.Owner == nil {
-								ds = append(ds, fmt.Sprintf("(= o %s)", ls.Obj.S))
-							}
+						if (strings.HasPrefix(ls.Fam, "C.") && capCell[ls.Obj.S]) || strings.HasPrefix(ls.Fam, "MD.") {
+							seen[ls.Obj.S] = true
+							ds = append(ds, fmt.Sprintf("(= o %s)", ls.Obj.S))
 						}
-						break
 					}
 				}
 			}
